@@ -8,7 +8,9 @@ package csblob
 //@   property C11
 //@   nopanic
 //@   loop 0 sig "for i := 0; i < count; i++" invariant 0 <= i && i <= count && count >= 0 && len(indexes) == 8 * count && \
-//@        dataOffset == origLen - len(blob) && origLen >= len(blob) && (items == nil || allocated(items))
+//@        dataOffset == origLen - len(blob) && origLen >= len(blob) && (items == nil || allocated(items)) && \
+//@        forall(k, 0, len(items), len(items[k].data) >= 8)
+//@   ensures @every_item_holds_at_least_its_own_header ret2 == nil ==> forall(k, 0, len(ret1), len(ret1[k].data) >= 8)
 
 //@ func parseCodeDirectory$1
 //@   property C11
@@ -72,7 +74,11 @@ package csblob
 //@   property C11 C02
 //@   nopanic
 //@   ensures @blob_and_its_directories_present_on_success ret1 == nil ==> ret0 != nil && forall(k, 0, len(ret0.Directories), ret0.Directories[k] != nil)
-//@   loop 0 sig "for _, item := range items" invariant sig != nil && forall(k, 0, len(sig.Directories), sig.Directories[k] != nil)
+//@   loop 0 sig "for _, item := range items" invariant sig != nil && forall(k, 0, len(sig.Directories), sig.Directories[k] != nil) && \
+//@        (sig.Entitlement == nil || len(sig.Entitlement) >= 8) && (sig.EntitlementDER == nil || len(sig.EntitlementDER) >= 8) && \
+//@        forall(k, 0, len(items), len(items[k].data) >= 8) && forall(k, 0, len(sig.Unknowns), len(sig.Unknowns[k]) >= 8)
+//@   ensures @embedded_blobs_hold_at_least_their_header ret1 == nil ==> (ret0.Entitlement == nil || len(ret0.Entitlement) >= 8) && \
+//@        (ret0.EntitlementDER == nil || len(ret0.EntitlementDER) >= 8) && forall(k, 0, len(ret0.Unknowns), len(ret0.Unknowns[k]) >= 8)
 //@   on call sort.Slice(_, _) ret (): assume atcall(forall(k, 0, len(sig.Directories), sig.Directories[k] != nil)) ==> forall(k, 0, len(sig.Directories), sig.Directories[k] != nil)
 
 //@ func hashFunc
@@ -98,3 +104,27 @@ package csblob
 //@   on call crypto/hmac.Equal(a, b) ret (r): compared = compared + ite(r, 1, 0)
 //@   loop 0 sig "for i, expected := range dir.CodeHashes" invariant compared == rangeindex + 1 && dir != nil && len(page) >= 0 && pageSize >= 1 && len(page) <= pageSize && cap(page) == pageSize
 //@   ensures @every_hash_slot_compared_with_the_page_read ret0 == nil && dir.Header.PageSizeLog2 != 0 ==> compared == len(dir.CodeHashes)
+//@
+//@ func (*SigBlob).Requirements
+//@   property C11
+//@   nopanic
+//@   requires b != nil
+//@   loop 0 sig "for _, item := range items" invariant forall(k, 0, len(items), len(items[k].data) >= 8) && reqs != nil
+//@
+//@ func (*SignatureParams).DefaultsFromSignature
+//@   property C11
+//@   nopanic
+//@   requires p != nil
+//@
+//@ func (*reqDumper).getUint32
+//@   property C11
+//@   nopanic
+//@   requires d != nil
+//@   ensures @four_bytes_consumed_or_none ret1 ==> len(d.buf) == old(len(d.buf)) - 4
+//@   modifies d.buf, d.err
+//@
+//@ func (*reqDumper).getData
+//@   property C11
+//@   nopanic
+//@   requires d != nil
+//@   modifies d.buf, d.err
